@@ -68,7 +68,10 @@ func registerIOIntercepts() {
 	for k, v := range m {
 		intercepts[k] = v
 	}
+	registerIOModels()
 }
+
+func (ex *Exec) vfsReadFull(a []Value) (Value, bool) { return nil, false }
 
 // lockAccess records an access for the C20 lock-discipline check.
 func (ex *Exec) lockAccess(c *Cell, write bool) {}
